@@ -308,4 +308,65 @@ theorem inv_init (n L Iv now clock : Nat) (progs : List (List OpSpec)) :
   obtain ⟨p, _, rfl⟩ := ht
   exact ⟨fun r hr => by simp [mkThread] at hr, fun f hf => by simp [mkThread] at hf⟩
 
+/-! ## invariants of the shared words alone -/
+
+theorem stepTh_sh (sh : Shared) (clock : Nat) (t : Th) : ∃ a, (stepTh sh clock t).1 = sh.apply a := by
+  unfold stepTh
+  cases t.cur with
+  | none => exact ⟨.none, rfl⟩
+  | some f =>
+    simp only []
+    cases (decideStep sh f.op f.now f.pc).2 <;> exact ⟨_, rfl⟩
+
+theorem exec_sh (c : Cfg) (e : Entry) : ∃ a, (c.exec e).sh = c.sh.apply a := by
+  cases e with
+  | tick d => exact ⟨.none, rfl⟩
+  | step i =>
+    simp only [Cfg.exec]
+    cases c.th[i]? with
+    | none => exact ⟨.none, rfl⟩
+    | some t => exact stepTh_sh c.sh c.clock t
+
+/-- a property of the shared words kept by every action is kept by every schedule -/
+theorem run_sh_inv (P : Shared → Prop) (hP : ∀ sh a, P sh → P (sh.apply a)) (c : Cfg) (s : List Entry)
+    (h : P c.sh) : P (run c s).sh := by
+  induction s generalizing c with
+  | nil => exact h
+  | cons e r ih =>
+    apply ih
+    obtain ⟨a, ha⟩ := exec_sh c e
+    rw [ha]; exact hP _ _ h
+
+/-- exact accounting of a counter word: while it is being recycled (`dirty`) everything added to it is
+    `lost`; otherwise its content plus what was lost is exactly what has been added since the slot's start
+    was stored -/
+def ExactInv (sh : Shared) : Prop :=
+  ∀ i k, if sh.dirty i k = true then sh.lost i k = sh.fresh i k else sh.cnt i k + sh.lost i k = sh.fresh i k
+
+theorem apply_exact (sh : Shared) (a : Act) (h : ExactInv sh) : ExactInv (sh.apply a) := by
+  intro i k
+  have hik := h i k
+  cases a <;> simp only [Shared.apply, upd2]
+  case none => exact hik
+  case lock => exact hik
+  case unlock => exact hik
+  case setMinRt => exact hik
+  case setMaxConc => exact hik
+  case setStart i0 s =>
+    by_cases hi : i = i0
+    · simp [hi]
+    · simp only [hi, if_false]; exact hik
+  case zeroCnt i0 k0 =>
+    by_cases hc : i = i0 ∧ k = k0
+    · obtain ⟨rfl, rfl⟩ := hc
+      simp only [and_self, if_true]
+      split_ifs at hik ⊢ <;> simp_all <;> omega
+    · simp only [hc, if_false]; exact hik
+  case addCnt i0 k0 a0 =>
+    by_cases hc : i = i0 ∧ k = k0
+    · obtain ⟨rfl, rfl⟩ := hc
+      simp only [and_self, if_true]
+      split_ifs at hik ⊢ <;> omega
+    · simp only [hc, if_false]; exact hik
+
 end Sentinel.LAR
